@@ -788,7 +788,8 @@ def probe_cases(spec, i):
     split = bool(spec.get('split')) or (spec.get('graph') == 'i3' and K > 1)
     p = [pts['p']] * K
     # per-source parameters: the second point keeps the grid cell of the first source and moves the second source
-    q = [pts['r']] * K if not split else [pts['p2']] + [pts['r']] * (K - 1)
+    far = pts['q'] if i % 2 == 1 else pts['r']          # adjacent / distant cell
+    q = [far] * K if not split else [pts['p2']] + [far] * (K - 1)
     sp = spec if spec.get('graph') == 'i3' else dict(spec, product=[None, 'first', 'second'][i % 3])
     sp = dict(sp, reuse_fp=(i % 2 == 1), dY=(i % 4 >= 2))
     bad = [bad_point(spec)] * K
@@ -807,6 +808,8 @@ def probe_cases(spec, i):
         out.append(dict(spec=sp, d0=0, s0=0, ops=[['E', 2.5, p], ['E', 2.5, bad]], final=['grad2raw', 2.5]))
     else:
         out.append(dict(spec=sp, d0=3, s0=0, ops=[['E', 0.7, bad], ['I', 2], ['E', 2.5, p]], final=['eval_grad2', 2.5, q]))
+    if i % 4 == 0:
+        out.append(dict(spec=sp, d0=0, s0=1, ops=[['E', 2.5, q], ['I', 1]], final=['maximize']))
     if i % 3 == 0 or split:
         out.append(dict(spec=sp, d0=2, s0=1, ops=[['E', 2.5, p], ['E', 2.5, q]], final=['eval', 2.5, p]))
         out.append(dict(spec=sp, d0=2, s0=1, ops=[['E', 2.5, p]], final=['eval_grad2', 2.5, q]))
@@ -908,7 +911,7 @@ def _split_supported():
 
 def run(ctx):
     variant = extract_variant(ctx)
-    ctx.extra['source_facts'] = dict(zip(('bumpAlways', 'exactHit', 'resetNsgrad'), variant))
+    ctx.extra['source_facts'] = dict(zip(('bumpAlways', 'exactHit', 'resetNsgrad', 'clearNsgOnEval'), variant))
     ctx.rule = ('histories of length 0..3 (quick) / 0..5 (thorough) over {initialize trial with data set A/B/C (6,6,9 events) on a '
                 'new / the same / the in-place edited events array, source change by mutation / replacement / new manager, '
                 'evaluate at p/p2 (same grid cell), q (adjacent), r/r2 (distant), n (grid node), change source hypothesis, '
@@ -973,6 +976,7 @@ def run(ctx):
                                              'cache' if sp['cache'] else 'nocache', sp['interp'], sp['scale']))
         for op in case['ops']:
             ctx.count('op:' + op[0] + (':' + '/'.join(op[2:4]) if op[0] == 'S' and len(op) >= 4 else ''))
+        _count_classes(ctx, case)
         d = _compare(ctx, case, impl, m, stats)
         if d:
             suspicious.append((case, impl, m, d))
@@ -1069,6 +1073,37 @@ def run(ctx):
                  % ', '.join(sorted(_cf().MISSING)))
 
 
+def _count_classes(ctx, case):
+    """one counter per class named in the property's quantifier"""
+    sp = case['spec']
+    ctx.count('class:fields=' + sp['fields'])
+    ctx.count('class:pd caching ' + ('on' if sp['cache'] else 'off'))
+    ctx.count('class:parameter values ' + ('MJD-like' if sp['scale'] == 'mjd' else 'small'))
+    ctx.count('class:interpolation=' + sp['interp'])
+    ctx.count('class:sources K=%d%s' % (sp['K'], ' per-source parameters' if sp.get('split') else ''))
+    G = _grid_only(sp)
+    size = {0: 6, 1: 6, 2: 9, 3: 1}
+    d, prev = case['d0'], None
+    evals = list(case['ops']) + ([['E'] + list(case['final'][1:])] if case['final'][0] in ('eval', 'eval_grad2') else [])
+    for op in evals:
+        if op[0] in ('I', 'M'):
+            ctx.count('class:new trial, data set %s, %s size' % ('ABCD'[op[1]], 'equal' if size[op[1]] == size[d] else 'different'))
+            d = op[1]
+        elif op[0] == 'R':
+            ctx.count('class:new trial, same events array')
+        elif op[0] == 'S':
+            ctx.count('class:change source')
+        elif op[0] == 'G':
+            ctx.count('class:second derivative')
+        elif op[0] == 'E':
+            key = _keys(G, sp, op[2])
+            if prev is not None:
+                dist = max(abs(a - b) for a, b in zip(key, prev)) / 0.1
+                ctx.count('class:evaluate, %s' % ('same grid cell' if dist < 0.5 else 'adjacent cell' if dist < 1.5 else 'distant cell'))
+            prev = key
+    ctx.count('class:final ' + case['final'][0])
+
+
 def _neighbourhood(case):
     """the disagreeing history itself, and every prefix of it closed by an evaluation at the last evaluated point"""
     yield case
@@ -1089,19 +1124,20 @@ def _corr_mode(d):
 
 
 MANIFEST = dict(
-    text=('Lean theorems, for every history over {initTrial, changeSource, evaluate, grad2}, every world of leaf functions and '
-          'any scalar type: the invariant "cache content = pure function of the current data at the cached key" is kept by every '
-          'operation; an evaluation after any history returns what the stateless evaluator and a freshly built object graph '
-          'return; PDF value caching on/off is invisible; an interpolation-cache hit implies same state id and same grid key; '
-          'the cached ns-gradients always belong to the current trial. The executable model (real cache fields incl. per-source '
-          'NaN blocks) is run against a real likelihood object graph on every run: values, hit/miss counts and the provenance '
-          'of the second derivative are compared; fresh-vs-used, caching-on/off and cache byte-snapshot oracles search for failing '
-          'histories, also on a PDFRatioProduct around the real SplinedI3EnergySigSetOverBkgPDFRatio in both factor orders.'),
-    note=('Hypotheses (a) every initialize_trial advances the state id and (b) the hit test is key equality are discharged for '
-          'flags read from the current source (c06_sound_for_current_source); three counterexample theorems show what happens '
-          'without them (pinned commit). The LLH value formula, grid rounding, the minimiser and IEEE rounding are outside the '
-          'theorems (C01, C15, C11); maximize/TS are covered by the fresh-vs-used oracle only. DataField global-fit-parameter '
-          'fields are modelled separately (TrialDataManager level); the I3 spline PDF ratio is exercised by the oracles but has no '
-          'Lean model of its own (same slot pattern); photospline tables are not covered.'),
+    text=('Lean theorems, for every history over {initTrial, changeSource, evaluate (with its error path), grad2}, every world of '
+          'leaf functions and any scalar type: the invariant "cache content = pure function of the current data at the cached key" '
+          'is kept by every operation; every evaluate of a history (trace theorem), and hence an evaluation after any history, '
+          'returns what the stateless evaluator and a freshly built object graph return and raises exactly when they raise; no '
+          'array is truncated across trials of different size; PDF value caching on/off is invisible; a cache hit implies same '
+          'state id and grid key; the second derivative is that of the last successful evaluation of the current trial (ns and '
+          'point in the token) and is refused otherwise. The executable model (run at a bit-pattern scalar, the very instance the '
+          'theorems cover) is compared with a real likelihood object graph on every run; fresh-vs-used, caching-on/off, byte-snapshot '
+          'and intermediate-evaluate oracles search for failing histories, also on a PDFRatioProduct around the real I3 spline ratio.'),
+    note=('Hypotheses (a) state id advances, (b) hit test is key equality, and the three resets are discharged for facts PROBED on the '
+          'current classes (five small histories through public methods), not pattern-matched in the source. Modelled layers: state id, '
+          'interpolation cache, pd caches, ns-gradient provenance, DataField cache (PDF-ratio values/gradients per source and event). '
+          'Oracle-only: SourceWeightedPDFRatio, PDFRatioProduct, the initialize_for_new_trial cascade / _cache_eventdata, the I3 spline '
+          'ratio cache, log-lambda and gradient vector (C01/C02), the second-derivative number, L-BFGS maximisation and TS. Not '
+          'exercised: event-selection methods, J >= 2 datasets, NR1d maximiser, photospline tables, BackgroundI3SpatialPDF.'),
     design='DESIGN.md section 4 C06',
     technique='Lean 4 proof (state-machine refinement, induction over histories) + model/implementation correspondence on histories')
